@@ -38,14 +38,23 @@ def handle (j : Json) : R Json := do
   | "sub" =>
     let s ← intF j "s"; let e ← intF j "e"
     let impl ← optLoc j "impl"
-    let guard := decide (0 ≤ s) && decide (s < e) && decide (e ≤ l.len / 3)
+    -- partial genes: per part [start is `<`, end is `>`]; absent = all positions exact
+    let fz : Fuzz ← match j.getObjVal? "fz" with
+      | .ok (.arr a) => a.toList.mapM fun x => do return ((← asBool (← idx x 0)), (← asBool (← idx x 1)))
+      | _ => pure []
+    let amb := ambiguousEnd l fz
+    let total := l.len / 3
+    let truncated := amb && decide (e > total) && decide (0 ≤ s) && decide (s < total)
+    let e' := if truncated then total else e
+    let guard := decide (0 ≤ s) && decide (s < e') && decide (e' ≤ total)
     let feature := boolFD j "feature" false     -- a motif/domain feature is constructed from the location
-    let m := if feature then featureAt (subLocation l s e) else subLocation l s e
-    let refused := match subLocation l s e with | .ok r => containsOverlappingExons r | _ => false
+    let m := if feature then featureAt (subLocationFuzzy amb l s e) else subLocationFuzzy amb l s e
+    let refused := match subLocationFuzzy amb l s e with | .ok r => containsOverlappingExons r | _ => false
     return jObj (common ++ [
       ("model", resJson locToJson m), ("unrepresentable", toJson refused),
-      ("spec", jObj [("guard", toJson guard), ("slice", sliceJ l (3 * s) (3 * e)),
-                     ("covers", coversJ l impl (3 * s) (3 * e))])])
+      ("amb", toJson amb), ("truncated", toJson truncated), ("eff_e", toJson e'),
+      ("spec", jObj [("guard", toJson guard), ("slice", sliceJ l (3 * s) (3 * e')),
+                     ("covers", coversJ l impl (3 * s) (3 * e'))])])
   | "offsets" =>
     let s ← intF j "s"; let e ← intF j "e"
     let impl ← optLoc j "impl"
@@ -82,8 +91,11 @@ def handle (j : Json) : R Json := do
       | none => Json.null
       | some r => toJson (if undo then bases l == (bases r).drop k else bases r == (bases l).drop k)
     let guard := frameGuard l cs undo
+    let textModel : Json := match j.getObjVal? "text" with
+      | .ok (.str t) => resJson locToJson (frameshiftText l t undo)
+      | _ => Json.null
     return jObj (common ++ [
-      ("model", resJson locToJson m), ("back", back),
+      ("model", resJson locToJson m), ("back", back), ("model_text", textModel),
       ("spec", jObj [("guard", toJson guard), ("shifted", specOk)])])
   | "prepeptide" =>
     let ld ← intF j "leader"; let tl ← intF j "tail"
